@@ -376,6 +376,9 @@ func runProtocol(kc *kernelCtx, blocks []*Block, only string, want map[string]bo
 		pc.p2BareReceive(only)
 	}
 	pc.t1Promoted(only)
+	if on("C03") || on("C14") || on("C16") {
+		pc.p2StopChannels(only)
+	}
 	if on("C09") || on("C01") || on("C06") || on("C10") || on("C11") {
 		pc.d2ContextlessMethods(only)
 	}
